@@ -11,6 +11,8 @@ def correspondence(run, check, tier=None, extra=(), release=False, shards=16, no
         run.oblige('harness_run(%s)' % check, False, out[-3000:])
         return None
     cf = run.rundir / 'cases.txt'
+    if not getattr(run, 'oracle_ok', True):
+        return stats, 0, []
     if cf.exists() and cf.stat().st_size > 0:
         oko, logo = vflib.run_oracle_sharded(str(cf), str(run.rundir / 'model.txt'), shards=shards, timeout=timeout)
         if not oko:
@@ -55,7 +57,7 @@ def run_components(run, components, tier=None, proofs_ok=True):
             continue
         n, diffs = 0, []
         cf = run.rundir / 'cases.txt'
-        if c.get('oracle') and cf.exists() and cf.stat().st_size > 0:
+        if c.get('oracle') and getattr(run, 'oracle_ok', True) and cf.exists() and cf.stat().st_size > 0:
             oko, logo = vflib.run_oracle_sharded(str(cf), str(run.rundir / 'model.txt'), timeout=c.get('timeout', 3000))
             if not oko:
                 run.oblige('oracle_run(%s)' % name, False, logo[-2000:])
